@@ -529,7 +529,10 @@ func (s *c09State) gwOp(actor string, op c09Op) {
 		}
 		s.ack(a, err)
 	case "resync":
-		err := e.coll.ResyncDocument(ctx, key, nil, op.Arg%2 == 1)
+		// regenerate_sequences only in the gateway-only runs: when such a resync loses its CAS to an external write the
+		// sequence it took is not given back (ResyncDocument releases its unused sequences before the write, i.e. none)
+		// and the change cache then waits out its pending-sequence timer - sequence accounting is C07's subject
+		err := e.coll.ResyncDocument(ctx, key, nil, s.c.OwnOnly && op.Arg%2 == 1)
 		if err == nil {
 			s.cnt("gateway_resync_rewrites", 1)
 		} else {
@@ -797,14 +800,14 @@ func c09GenCase(r *vlib.Rand, mode string, n int, own bool) *c09Case {
 		return c
 	}
 	c.MidBudget = r.Intn(3)
-	c.FlipSync = r.Chance(1, 2)
+	c.FlipSync = r.Chance(2, 3)
 	extKinds := []string{"set", "set", "setraw", "update", "del"}
 	c.Actors = append(c.Actors, c09Actor{Name: "X1", Role: "ext", Ops: gen(extKinds, 2, 4)})
 	if r.Chance(1, 3) {
 		c.Actors = append(c.Actors, c09Actor{Name: "X2", Role: "ext", Ops: gen(extKinds, 1, 2)})
 	}
 	if r.Chance(3, 4) {
-		c.Actors = append(c.Actors, c09Actor{Name: "G1", Role: "gw", Ops: gen([]string{"put", "put", "gdel", "putblind", "resync", "resync"}, 1, 3)})
+		c.Actors = append(c.Actors, c09Actor{Name: "G1", Role: "gw", Ops: gen([]string{"put", "put", "gdel", "putblind", "resync", "resync", "resync"}, 1, 4)})
 	}
 	if mode == c09OnDemand || r.Chance(1, 2) {
 		c.Actors = append(c.Actors, c09Actor{Name: "R1", Role: "rd", Ops: gen([]string{"get", "get", "get1x", "getsync"}, 1, 3)})
@@ -1460,6 +1463,9 @@ func c09ChangesCheck(e *c09Env, c *c09Case, views map[string]c09View, sig func(s
 		}
 		time.Sleep(500 * time.Microsecond)
 	}
+	waited := int(time.Since(deadline.Add(-12*time.Second)) / time.Millisecond)
+	e.count("changes_wait_total_ms", waited)
+	e.run.Max(e.pfx+"changes_wait_ms", waited)
 	feed, err := e.coll.MultiChangesFeed(e.ctx, base.SetOf("*"), ChangesOptions{Since: SequenceID{Seq: since}, ChangesCtx: e.ctx})
 	if err != nil || feed == nil {
 		run.Inconclusive("changes request failed")
